@@ -10,7 +10,15 @@ RULE = ("deviation-bounded enumeration of all executions of the real SequentialR
 
 
 def scenarios(tier):
-    return base_family()
+    sc = base_family()
+    # a user event whose before-session hook cancels a resting order directly at the market: the record it causes is
+    # pending when the session-begin record is written
+    from ..explore_r import Scenario, S, mkcfg
+    from ..scenarios_r import agents
+    for nm, sess in (("Q_event_cancels_at_session_open", [S(0, 2, True, False, maxNormalOrders=2, events=["E"]), S(1, 2, True, True, maxNormalOrders=2), S(2, 1, True, True, maxNormalOrders=2)]),
+                     ("Q_event_cancels_at_session_open_exec", [S(0, 2, True, True, maxNormalOrders=1, events=["E"]), S(1, 2, True, True, maxNormalOrders=2)])):
+        sc[nm] = Scenario(nm, mkcfg(sess, agents=agents(2, 0), events={"E": {"class": "ProbeEvent", "hooks": [["session", True, None, None]], "act_before_session": True}}))
+    return sc
 
 
 def on_exc(w):
